@@ -103,10 +103,17 @@ func c14Templates() map[string][]gen.Node {
 		"block":             {&gen.NBlock{Name: "blk", Body: []gen.Node{tx("in block")}}},
 		"macro-and-call": {&gen.NMacro{Name: "mc", Params: []string{"p", "q", "r"}, Body: []gen.Node{pr(nm("p")), tx("/"), pr(nm("q"))}},
 			pr(&gen.EMethod{X: nm("_self"), Name: "mc", Args: []gen.Expr{num(1), str("two")}})},
-		"import":          {&gen.NImport{Tpl: str("lib"), Alias: "L"}, pr(&gen.EMethod{X: nm("L"), Name: "lm", Args: []gen.Expr{nm("s")}})},
-		"from":            {&gen.NFrom{Tpl: str("lib"), Names: [][2]string{{"lm", "renamed"}, {"lm2", "lm2"}}}, pr(&gen.ECall{Fn: "renamed", Args: []gen.Expr{num(5)}}), pr(&gen.ECall{Fn: "lm2"})},
-		"include":         {&gen.NInclude{Tpl: str("part"), With: &gen.EHash{Keys: []gen.Expr{nm("w")}, Vals: []gen.Expr{num(1)}}, Only: true}, &gen.NInclude{Tpl: bin("~", str("pa"), str("rt"))}, &gen.NInclude{Tpl: str("part"), Only: true}},
-		"embed":           {&gen.NEmbed{Tpl: str("lay"), With: &gen.EHash{Keys: []gen.Expr{nm("w")}, Vals: []gen.Expr{str("x")}}, Only: true, Blocks: []*gen.NBlock{{Name: "eb", Body: []gen.Node{tx("over")}}}}},
+		"import":  {&gen.NImport{Tpl: str("lib"), Alias: "L"}, pr(&gen.EMethod{X: nm("L"), Name: "lm", Args: []gen.Expr{nm("s")}})},
+		"from":    {&gen.NFrom{Tpl: str("lib"), Names: [][2]string{{"lm", "renamed"}, {"lm2", "lm2"}}}, pr(&gen.ECall{Fn: "renamed", Args: []gen.Expr{num(5)}}), pr(&gen.ECall{Fn: "lm2"})},
+		"include": {&gen.NInclude{Tpl: str("part"), With: &gen.EHash{Keys: []gen.Expr{nm("w")}, Vals: []gen.Expr{num(1)}}, Only: true}, &gen.NInclude{Tpl: bin("~", str("pa"), str("rt"))}, &gen.NInclude{Tpl: str("part"), Only: true}},
+		"embed":   {&gen.NEmbed{Tpl: str("lay"), With: &gen.EHash{Keys: []gen.Expr{nm("w")}, Vals: []gen.Expr{str("x")}}, Only: true, Blocks: []*gen.NBlock{{Name: "eb", Body: []gen.Node{tx("over")}}}}},
+		// hashes that end where the tag or the print ends, and hashes in hashes: a closing brace closes the open
+		// hash before it can be part of a delimiter
+		"hash-at-the-end": {&gen.NSet{Name: "hv", X: &gen.EHash{Keys: []gen.Expr{nm("o")}, Vals: []gen.Expr{&gen.EHash{Keys: []gen.Expr{str("i")}, Vals: []gen.Expr{num(5)}}}}},
+			pr(&gen.EAttr{X: &gen.EAttr{X: nm("hv"), Key: str("o"), Dot: true}, Key: str("i"), Dot: true}),
+			&gen.NInclude{Tpl: str("part"), With: &gen.EHash{Keys: []gen.Expr{nm("w")}, Vals: []gen.Expr{&gen.EHash{Keys: []gen.Expr{nm("x")}, Vals: []gen.Expr{num(1)}}}}},
+			tx("("), pr(&gen.EHash{Keys: []gen.Expr{nm("a")}, Vals: []gen.Expr{num(1)}}), tx(")"),
+			pr(&gen.EInterp{Parts: []gen.Expr{&gen.EStr{S: "i "}, &gen.EAttr{X: &gen.EGroup{X: &gen.EHash{Keys: []gen.Expr{nm("k")}, Vals: []gen.Expr{&gen.EHash{Keys: []gen.Expr{nm("j")}, Vals: []gen.Expr{num(7)}}}}}, Key: str("k"), Dot: true}}})},
 		"do":              {&gen.NDo{X: &gen.ECall{Fn: "fn", Args: []gen.Expr{num(1)}}}},
 		"verbatim":        {&gen.NVerbatim{S: "{{ raw }}{% if x %}y{% endif %}{{ 'unclosed"}},
 		"arithmetic":      e(bin("-", bin("+", num(1), bin("*", num(2), num(3))), bin("/", num(8), num(4)))),
